@@ -104,7 +104,7 @@ func genEpoch(r *vh.Rng, th bool) []Case {
 	}
 	small := []g{{30, 1, 2}, {29, 1, 2}, {30, 2, 2}, {30, 3, 1}, {29, 0, 1}}
 	if th {
-		small = []g{{30, 1, 5}, {29, 1, 4}, {28, 1, 3}, {30, 2, 4}, {30, 3, 4}, {29, 0, 3}, {29, 2, 3}}
+		small = []g{{30, 1, 4}, {29, 1, 3}, {28, 1, 2}, {30, 2, 3}, {30, 3, 3}, {29, 0, 2}, {29, 2, 2}}
 	}
 	for _, sg := range small {
 		base := randBase(r, 32, sg.ppl)
@@ -115,6 +115,13 @@ func genEpoch(r *vh.Rng, th bool) []Case {
 					Ops: append(ops, epochSuffix(usable)...), Origin: "exhaustive"})
 			})
 		}
+	}
+	if th {
+		base := randBase(r, 32, 30)
+		sampleSeqs(r, alpha, 5+r.Intn(3), 2000, func(ops []Op) {
+			out = append(out, Case{Kind: "epoch", Bits: 32, Base: base.String(), PPL: 30, PL: 32, Grace: 1,
+				Ops: append(ops, epochSuffix(2)...), Origin: "small-random"})
+		})
 	}
 	if !th {
 		base := randBase(r, 32, 30)
@@ -131,14 +138,14 @@ func genEpoch(r *vh.Rng, th bool) []Case {
 	// every usable slot written: small pools, fill first)
 	ng := 30
 	if th {
-		ng = 800
+		ng = 400
 	}
 	for i := 0; i < ng; i++ {
 		out = append(out, genEpochGuarded(r.Fork()))
 	}
 	nl := 40
 	if th {
-		nl = 1500
+		nl = 600
 	}
 	for i := 0; i < nl; i++ {
 		out = append(out, genEpochLong(r.Fork()))
